@@ -1047,6 +1047,13 @@ func (g *Gen) checkInvariant(h *ssa.BasicBlock, li *loopInfo, st State, from *ss
 	if g.ct != nil && !g.dry {
 		g.curHead = h
 		vars := g.localsAt(h, true, st)
+		// a step lemma is stated at the end of one iteration: the variables declared inside the
+		// body (as they stand where this back edge leaves it) are in scope as well
+		for k, x := range g.localsAt(from, false, st) {
+			if _, ok := vars[k]; !ok {
+				vars[k] = x
+			}
+		}
 		for i, c := range g.ct.StepLemma[li.ord] {
 			if !c.active(g.prog.curProp) {
 				continue
